@@ -72,6 +72,10 @@ type Stream struct {
 	// Contains frames waiting to be sent to the peer. Is emptied by AsyncFlush or Flush.
 	pendingFrames []*Frame
 
+	// True while an AsyncFlush is writing to the transport; callbacks of flushes requested meanwhile wait here.
+	flushing     bool
+	flushWaiters []func(err error)
+
 	// Optional callback invoked when a control frame is received.
 	controlCallback ControlCallback
 
@@ -164,6 +168,8 @@ func (s *Stream) reset() {
 	s.conn = nil
 	s.src.Reset()
 	s.dst.Reset()
+	s.flushing = false
+	s.flushWaiters = nil
 }
 
 // Returns the stream through which IO is done.
@@ -729,6 +735,34 @@ func (s *Stream) Flush() (err error) {
 //
 // This call does not block.
 func (s *Stream) AsyncFlush(callback func(err error)) {
+	if s.flushing {
+		// The transport takes one write at a time and a flush is already using it: AsyncNextFrame flushing a
+		// Pong while the application starts AsyncWrite, for instance. Starting a second write would replace the
+		// first one's completion. The running flush drains pendingFrames until it is empty, so it also writes
+		// what was queued since it started; wait for it.
+		s.flushWaiters = append(s.flushWaiters, callback)
+		return
+	}
+
+	if len(s.pendingFrames) == 0 {
+		callback(nil)
+		return
+	}
+
+	s.flushing = true
+	s.asyncFlush(func(err error) {
+		s.flushing = false
+		waiters := s.flushWaiters
+		s.flushWaiters = nil
+
+		callback(err)
+		for _, waiter := range waiters {
+			waiter(err)
+		}
+	})
+}
+
+func (s *Stream) asyncFlush(callback func(err error)) {
 	if len(s.pendingFrames) == 0 {
 		callback(nil)
 	} else {
@@ -741,7 +775,7 @@ func (s *Stream) AsyncFlush(callback func(err error)) {
 			if err != nil {
 				callback(err)
 			} else {
-				s.AsyncFlush(callback)
+				s.asyncFlush(callback)
 			}
 		})
 	}
